@@ -35,7 +35,9 @@ INTS = [0, 1, -1, 2, 10, -15, 255, 2**31, -2**63, 2**64 + 1, 10**30, True + 1]
 FLOATS = [0.0, -0.0, 1.0, -1.5, 0.1, 1e22, 1e-7, 123456789.123, float("inf"), float("-inf"), float("nan"), 2.0**70, 5e-324]
 DATES = [datetime.date(2020, 1, 2), datetime.date(1999, 12, 31), datetime.date(1, 1, 1)]
 TZS = [None, datetime.timezone.utc, datetime.timezone(datetime.timedelta(minutes=330)),
-       datetime.timezone(datetime.timedelta(minutes=-480)), datetime.timezone(datetime.timedelta(0))]
+       datetime.timezone(datetime.timedelta(minutes=-480)), datetime.timezone(datetime.timedelta(0)),
+       datetime.timezone(datetime.timedelta(minutes=-210)), datetime.timezone(datetime.timedelta(minutes=-570)), datetime.timezone(datetime.timedelta(minutes=-1)),
+       datetime.timezone(datetime.timedelta(minutes=765))]
 
 
 def ustr_term(s):
